@@ -187,6 +187,7 @@ Tolerate(r) == IF r.k = "err" /\ r.unk THEN [r EXCEPT !.k = "ok", !.v = Nil, !.u
 
 EvalE(e, st) ==
   CASE e.t = "int"  -> Ok(I(e.n), st)
+    [] e.t = "maxint" -> Ok(I(2147483647), st)
     [] e.t = "flt"  -> Ok(F(e.num, e.exp), st)
     [] e.t = "str"  -> Ok(S(e.s), st)
     [] e.t = "bool" -> Ok(B(e.b), st)
